@@ -23,13 +23,13 @@ RULE = ("grids of 1-12 combinations, repetitions 1-6 (>=2 for variance modes), a
         "seeded durations / ties / stalled workers); non-trivial = >=3 combinations with the optimum not at an end, or "
         "a tie for best, or |score| > sys.maxsize; distinct = (mode, combinations, repetitions, processes, best index, "
         "tie?, magnitude class, completion permutation)"
-        "; also: numpy integer scores, sibling ParameterList edited before the search, duplicate combinations handled in the oracle; real-pool arm changes program state between two parallel searches; rare switch for known finding F9, parameters named like the search code's own arguments (max_timesteps, model_cls, mode, ...)")
+        "; also: numpy integer scores, sibling ParameterList edited before the search, duplicate combinations handled in the oracle; real-pool arm changes program state between two parallel searches; rare switch for known finding F9, parameters named like the search code's own arguments (max_timesteps, model_cls, mode, ...), models with their own `timestep` attribute, every model stepped through exactly the timesteps up to its completion / the limit")
 COMPONENTS = {"real": ["ECAgent.Batching.grid_search", "_run_model_for_search", "_score_model_for_search", "ParameterList",
                        "statistics.mean/variance as called by the package", "ECAgent.Core.Model / SystemManager"],
               "stub": ["multiprocessing.Pool -> simkit.simpool.SimPool", "models and score function are harness workloads"]}
 PROBES = ["mode_0", "mode_1", "mode_2", "mode_3", "mode_4", "mode_5", "mode_6", "mode_7", "tie_for_best",
           "negative_only", "single_combination", "beyond_maxsize", "optimum_first", "optimum_middle", "optimum_last",
-          "parallel_reordered", "float_scores", "numpy_integer_scores", "parameter_named_like_a_batching_argument"]
+          "parallel_reordered", "float_scores", "numpy_integer_scores", "parameter_named_like_a_batching_argument", "model_with_own_timestep_attribute"]
 TECHNIQUE = "deterministic simulation: serial vs simulated-parallel schedules of the same search, exact Fraction recomputation of every aggregate and of the best"
 LEVEL_TEXT = ("Seeded search over grids, modes, score tables and simulated pool schedules; every aggregate and the returned best "
               "are compared with an exact rational recomputation and the serial and simulated-parallel outcomes must be "
@@ -79,6 +79,7 @@ def generate(rng, tier):
             break
     if rng.random() < 0.12 and grid[0][0] not in ("records", "score"):
         grid[0][0] = rng.choice(W.SPECIAL_NAMES)
+    shadow = rng.choice([None, None, None, None, 0.25, 2.0, 7])      # the model keeps an attribute of its own called `timestep`
     mode = rng.randrange(8)
     reps = rng.randint(2 if mode >= 6 else 1, 8 if tier == "thorough" else 6)
     style = rng.choice(["small", "small", "neg", "big", "bigpos", "bigneg", "float", "mid", "mid"])
@@ -106,7 +107,7 @@ def generate(rng, tier):
     elif r < 0.6:
         scores = [list(scores[0]) for _ in range(size)]  # everything tied
     max_ts = rng.choice([None, None, rng.randint(0, 5)])
-    return {"numpy_scores": style in ("small", "neg", "mid") and rng.random() < 0.3, "sibling": rng.random() < 0.15, "grid": grid, "via": rng.choice(["dict", "plist"]), "reps": reps, "mode": mode, "scores": scores,
+    return {"shadow_timestep": shadow, "numpy_scores": style in ("small", "neg", "mid") and rng.random() < 0.3, "sibling": rng.random() < 0.15, "grid": grid, "via": rng.choice(["dict", "plist"]), "reps": reps, "mode": mode, "scores": scores,
             "processes": rng.choice([2, 2, 3, 4, 8, 16, rng.randint(2, 16)]), "max_ts": max_ts,
             "base_stop": rng.randint(0, 4), "spread": rng.randint(1, 3), "pool": gen_pool(rng, size)}
 
@@ -153,7 +154,10 @@ def run_search(ctx, sc, processes, label):
     for i, s in enumerate(sigs):
         table.setdefault(s, sc["scores"][i % len(sc["scores"])])
     W.reset({"base_stop": sc["base_stop"], "spread": sc["spread"], "scores": table,
-             "collectors_defined": [["col0", 1]], "numpy_scores": bool(sc.get("numpy_scores"))})
+             "collectors_defined": [["col0", 1]], "numpy_scores": bool(sc.get("numpy_scores")),
+             "shadow_timestep": sc.get("shadow_timestep")})
+    if sc.get("shadow_timestep") is not None:
+        ctx.probe("model_with_own_timestep_attribute")
     if any(n_ in W.SPECIAL_NAMES for n_ in names):
         ctx.probe("parameter_named_like_a_batching_argument")
     stats = {}
@@ -220,6 +224,12 @@ def check_outcome(ctx, sc, combos, sigs, table, val, ledger, label):
             if name == "stopper" and e["completed_at"] == t:
                 done = True
         ctx.check(e.get("scored"), "not-scored", f"{label}: {e['sig']}")
+        # ... and not short of it either: the model was stepped through every timestep up to completion / the limit
+        lim = W.stop_at_of(e["sig"])
+        reach = lim if sc["max_ts"] is None else min(lim, sc["max_ts"] - 1)
+        seen = [t for n_, t, _ in e["ticks"] if n_ == "stopper"]
+        ctx.check(seen == list(range(0, reach + 1)), "stepping",
+                  f"{label}: {e['sig']}: stepped through timesteps {seen}, expected 0..{reach}")
     return bi, exact
 
 
